@@ -172,6 +172,13 @@ type Interp struct {
 	// hooks for derived checks
 	OnReopen func(in *Interp) error
 	AfterOp  func(in *Interp) error
+	// TsRestarts counts re-opens after which the DB restarted its timestamps below dropped dead versions.
+	TsRestarts int
+	// Ext holds the op kinds of derived checks (stream, backup, drop, ...), Cnt their counters.
+	Ext map[string]func(in *Interp, op Op) error
+	Cnt map[string]int
+	// OnClose releases resources of derived checks.
+	OnClose  []func()
 	Lenient  bool // AllVersions results compared as mustRetain ⊆ seen ⊆ written (always true after compactions)
 }
 
@@ -256,6 +263,9 @@ func (in *Interp) Open() error {
 
 // Close releases everything (best effort).
 func (in *Interp) Close() {
+	for _, f := range in.OnClose {
+		f()
+	}
 	in.dropAllTxns()
 	if in.db != nil {
 		in.db.Close()
@@ -1092,6 +1102,7 @@ func (in *Interp) reconcileAfterReopen() error {
 		}
 		delete(in.m.Keys, k)
 	}
+	in.TsRestarts++
 	kept := in.commits[:0]
 	for _, c := range in.commits {
 		if c.ts <= R {
@@ -1452,6 +1463,9 @@ func (in *Interp) execOp(op Op) error {
 	case "check":
 		return in.CheckAll()
 	default:
+		if f := in.Ext[op.Kind]; f != nil {
+			return f(in, op)
+		}
 		return errors.New("unknown op kind " + op.Kind)
 	}
 	return nil
